@@ -303,6 +303,9 @@ def table_set_file(draw, min_particles=3, max_particles=8, max_lines=4, max_daug
     from .chains import descriptor_safe
 
     n = draw(st.integers(min_particles, max_particles))
+    deep = max_lines > 1 and draw(st.sampled_from((False,) * 11 + (True,)))
+    if deep:
+        n = draw(st.integers(14, 20))  # one long cascade: a table per level, nested 14-20 deep
     pool = draw(name_pool(n + 3, n + 6))
     if balanced_only:
         pool = [x for x in pool if descriptor_safe(x)]
@@ -322,10 +325,16 @@ def table_set_file(draw, min_particles=3, max_particles=8, max_lines=4, max_daug
                 # the alias itself still has no table
                 if x in stable and draw(st.sampled_from((False, True))):
                     aliases[x] = draw(st.sampled_from(owners))
+                elif aliases and draw(st.sampled_from((False, False, True))):
+                    aliases[x] = draw(st.sampled_from(sorted(aliases)))  # an alias of an alias (one level is resolved, not two)
                 stmts.append({"k": "alias", "a": x, "p": aliases[x]})
     for i, m in enumerate(owners):
         lower = owners[i + 1:]
-        if draw(st.integers(0, 5)) == 0:
+        if deep:
+            nxt_ = [owners[i + 1]] if i + 1 < len(owners) else []
+            lines = [{"bf": draw(N.bf_literal()), "d": nxt_ + [draw(st.sampled_from(stable))], "photos": False,
+                      "model": "PHSP", "alias": False, "params": []}]
+        elif draw(st.integers(0, 5)) == 0:
             lines = []
         else:
             nl = draw(st.integers(1, max_lines))
